@@ -4,7 +4,13 @@ package main
 
 import (
 	"fmt"
+	"go/ast"
+	"go/constant"
+	"go/token"
+	"go/types"
 	"strings"
+
+	"golang.org/x/tools/go/types/typeutil"
 )
 
 var extrasDone bool
@@ -20,6 +26,10 @@ func registerExtras() {
 	propertyRules["C14"] = append(propertyRules["C14"], ruleDurationSrc)
 	propertyRules["C10"] = append(propertyRules["C10"], ruleDurationSrc)
 	propertyRules["C16"] = append(propertyRules["C16"], ruleBlockStartRef)
+	propertyRules["C11"] = append(propertyRules["C11"], ruleDivNonzero)
+	propertyRules["C02"] = append(propertyRules["C02"], ruleVerifyKey)
+	propertyRules["C07"] = append(propertyRules["C07"], ruleVerifyKey)
+	propertyRules["C08"] = append(propertyRules["C08"], ruleVerifyKey)
 }
 
 // L1-OBL: the state lemma "own (pre)commit / own preparation ⇒ proposal recorded" is an invariant: every non-nil store
@@ -164,7 +174,7 @@ func ruleDurationSrc(c *RC) *RuleResult {
 	}
 	for _, w := range c.timerWrappers() {
 		for _, s := range c.A.callers[w] {
-			for _, sn := range s.Snaps {
+			for _, sn := range c.preciseSnaps(s) {
 				if len(sn.Args) > 0 {
 					check(s, sn.Args[len(sn.Args)-1])
 				}
@@ -172,14 +182,14 @@ func ruleDurationSrc(c *RC) *RuleResult {
 		}
 	}
 	for _, s := range c.callSites("if:Timer.Extend") {
-		for _, sn := range s.Snaps {
+		for _, sn := range c.preciseSnaps(s) {
 			if len(sn.Args) == 1 {
 				check(s, sn.Args[0])
 			}
 		}
 	}
 	for _, s := range c.callSites("if:Timer.Reset") {
-		for _, sn := range s.Snaps {
+		for _, sn := range c.preciseSnaps(s) {
 			if len(sn.Args) == 3 {
 				check(s, sn.Args[2])
 			}
@@ -192,6 +202,37 @@ func ruleDurationSrc(c *RC) *RuleResult {
 		r.Samples = r.Samples[:4]
 	}
 	return r
+}
+
+// preciseSnaps: the snapshots of a call site; when an argument is the opaque result of a module function (a value
+// computed by a helper), the snapshots of the cluster walk, in which single-caller helpers are inlined and the value
+// is explicit.
+func (c *RC) preciseSnaps(s *Site) []*Snap {
+	opaque := false
+	for _, sn := range s.Snaps {
+		for _, a := range sn.Args {
+			if a != nil && strings.Contains(a.S, "l:ret:") {
+				opaque = true
+			}
+		}
+	}
+	if opaque {
+		if t := c.clusterSite(s); t != nil {
+			return t.Snaps
+		}
+	}
+	return s.Snaps
+}
+
+// preciseSnapsAll: the snapshots of s as seen from the function it serves (cluster walk) when s sits in a single-caller
+// helper, otherwise its own.
+func (c *RC) preciseSnapsAll(s *Site) []*Snap {
+	if c.A.inlinable(s.Fn) {
+		if t := c.clusterSite(s); t != nil {
+			return t.Snaps
+		}
+	}
+	return s.Snaps
 }
 
 // G-BLOCKSTART-REF: the timer reference (lastBlockTime/Index/View: "when we started creating the last block, as in
@@ -264,6 +305,227 @@ func ruleStaleCVRequest(c *RC) *RuleResult {
 		} else {
 			r.ok(fmt.Sprintf("%s: %s ⇒ %s on all %d paths", cv.Name, sc.name, rr.Name, len(exits)))
 		}
+	}
+	return r
+}
+
+// A-DIV-NONZERO: integer division / remainder panics on a zero divisor. Every divisor in package dbft is a non-zero
+// constant, the length of an array, derived from the validator count (config.go documents that an empty validator list
+// panics: contract A11), or a configuration field that checkConfig refuses when it is zero.
+func ruleDivNonzero(c *RC) *RuleResult {
+	r := &RuleResult{Rule: "A-DIV-NONZERO", Kind: "ARITH+GUARD", Doc: "every integer / and % in package dbft has a divisor that cannot be zero: non-zero constant, array length, validator count (documented contract), or a Config field validated by checkConfig"}
+	validated := map[string]bool{}
+	if cc := c.Prog.fn("checkConfig"); cc != nil && len(cc.Params) == 1 {
+		first := true
+		for _, e := range c.exitsOf(cc) {
+			if len(e.Ret) != 1 || e.Ret[0].K != KNil {
+				continue
+			}
+			here := map[string]bool{}
+			for k, v := range e.F.m {
+				a := e.F.atoms[k]
+				if a == nil || a.A == nil || a.B == nil {
+					continue
+				}
+				pre := "p:" + cc.Params[0].Name() + "."
+				if a.Op == "eq" && !v && a.B.S == "0" && strings.HasPrefix(a.A.S, pre) {
+					here[strings.TrimPrefix(a.A.S, pre)] = true
+				}
+				if a.Op == "lt" && v && a.A.S == "0" && strings.HasPrefix(a.B.S, pre) {
+					here[strings.TrimPrefix(a.B.S, pre)] = true
+				}
+			}
+			if first {
+				validated, first = here, false
+			} else {
+				for k := range validated {
+					if !here[k] {
+						delete(validated, k)
+					}
+				}
+			}
+		}
+	} else {
+		r.unresolved("checkConfig")
+	}
+	// the constructor hands out an instance only after checkConfig returned nil
+	if nw := c.Prog.fn("New"); nw != nil {
+		r.Sites++
+		bad, good := "", 0
+		for _, e := range c.exitsOf(nw) {
+			if len(e.Ret) != 2 || e.Ret[0].K == KNil {
+				continue
+			}
+			okd := false
+			for k, v := range e.F.m {
+				a := e.F.atoms[k]
+				if a != nil && a.Op == "nn" && !v && a.A != nil && a.A.K == KCall && a.A.S != "" && strings.HasPrefix(a.A.S, "fn:checkConfig(") {
+					okd = true
+				}
+			}
+			if okd {
+				good++
+			} else {
+				bad = strings.Join(e.Trail, "; ")
+			}
+		}
+		switch {
+		case bad != "":
+			r.fail("New/unchecked-config", c.Prog.Pos(nw.Decl), "New returns an instance on a path where checkConfig did not return nil: {"+bad+"}")
+		case good == 0:
+			r.unresolved("successful exit of New")
+		default:
+			r.ok("New returns an instance only after checkConfig returned nil")
+		}
+	} else {
+		r.unresolved("New")
+	}
+	n := 0
+	for _, fn := range c.Prog.sortedFuncs() {
+		if fn.Pkg.PkgPath != modPath {
+			continue
+		}
+		info := fn.Pkg.TypesInfo
+		check := func(pos ast.Node, div ast.Expr) {
+			t := info.TypeOf(div)
+			if t == nil {
+				return
+			}
+			if b, ok := t.Underlying().(*types.Basic); !ok || b.Info()&types.IsInteger == 0 {
+				return
+			}
+			n++
+			r.Sites++
+			why := c.nonzeroDivisor(fn, div, validated)
+			if why != "" {
+				r.ok(fmt.Sprintf("%s@%s: divisor %s — %s", fn.Name, c.Prog.Pos(pos), types.ExprString(div), why))
+			} else {
+				r.fail(fn.Name+"/div:"+types.ExprString(div), c.Prog.Pos(pos), "integer division by "+types.ExprString(div)+", which nothing keeps from being zero (checkConfig accepts a zero value): the library panics with 'integer divide by zero'")
+			}
+		}
+		ast.Inspect(fn.Decl.Body, func(nd ast.Node) bool {
+			switch x := nd.(type) {
+			case *ast.BinaryExpr:
+				if x.Op == token.QUO || x.Op == token.REM {
+					check(x, x.Y)
+				}
+			case *ast.AssignStmt:
+				if (x.Tok == token.QUO_ASSIGN || x.Tok == token.REM_ASSIGN) && len(x.Rhs) == 1 {
+					check(x, x.Rhs[0])
+				}
+			}
+			return true
+		})
+	}
+	if n < 3 {
+		r.unresolved(fmt.Sprintf("integer divisions in package dbft (found %d, expected >= 3)", n))
+	}
+	return r
+}
+
+// nonzeroDivisor explains why div cannot be zero ("" if nothing does).
+func (c *RC) nonzeroDivisor(fn *FuncInfo, div ast.Expr, validated map[string]bool) string {
+	info := fn.Pkg.TypesInfo
+	div = ast.Unparen(div)
+	if tv, ok := info.Types[div]; ok && tv.Value != nil {
+		if constant.Sign(tv.Value) != 0 {
+			return "non-zero constant"
+		}
+		return ""
+	}
+	if call, ok := div.(*ast.CallExpr); ok {
+		// conversion T(x)
+		if tv, ok := info.Types[call.Fun]; ok && tv.IsType() && len(call.Args) == 1 {
+			return c.nonzeroDivisor(fn, call.Args[0], validated)
+		}
+		if id, ok := call.Fun.(*ast.Ident); ok && id.Name == "len" && len(call.Args) == 1 {
+			if _, isBuiltin := info.Uses[id].(*types.Builtin); isBuiltin {
+				at := info.TypeOf(call.Args[0])
+				if p, ok := at.Underlying().(*types.Pointer); ok {
+					at = p.Elem()
+				}
+				if _, ok := at.Underlying().(*types.Array); ok {
+					return "length of an array"
+				}
+				if sel, ok := call.Args[0].(*ast.SelectorExpr); ok && sel.Sel.Name == "Validators" && namedName(info.TypeOf(sel.X)) == "Context" {
+					return "validator count (an empty list is a documented panic: A11)"
+				}
+			}
+		}
+		if f, ok := typeutil.Callee(info, call).(*types.Func); ok {
+			if t := c.Prog.Funcs[f.Origin()]; t != nil {
+				if rt, ok := c.singleRet(t); ok {
+					switch nfString(rt) {
+					case nfN():
+						return "N() = validator count (A11)"
+					case mNF():
+						return "M() = N-F ≥ 1 for N ≥ 1 (A11)"
+					}
+				}
+			}
+		}
+		return ""
+	}
+	if sel, ok := div.(*ast.SelectorExpr); ok && namedName(info.TypeOf(sel.X)) == "Config" {
+		if validated[sel.Sel.Name] {
+			return "Config." + sel.Sel.Name + " is refused by checkConfig when zero"
+		}
+	}
+	return ""
+}
+
+// P-VERIFY-KEY: a (pre)commit is verified under the key of the validator that sent it, over the signature / data it
+// carries: Verify(Validators[ValidatorIndex(X)], Signature(GetCommit(X))) for one and the same payload X.
+func ruleVerifyKey(c *RC) *RuleResult {
+	r := &RuleResult{Rule: "P-VERIFY-KEY", Kind: "PROV", Doc: "every Block.Verify / PreBlock.Verify call checks payload X's own signature (Commit.Signature / PreCommit.Data of X) under Validators[X.ValidatorIndex()] (or the range key of the table X is ranged from)"}
+	n := 0
+	for _, k := range []struct{ callee, body, get string }{
+		{"if:Block.Verify", "Commit.Signature", "ConsensusMessage.GetCommit"},
+		{"if:PreBlock.Verify", "PreCommit.Data", "ConsensusMessage.GetPreCommit"},
+	} {
+		for _, s := range c.callSites(k.callee) {
+			if s.Fn.Pkg.PkgPath != modPath {
+				continue
+			}
+			for _, sn := range s.Snaps {
+				n++
+				r.Sites++
+				if len(sn.Args) != 2 {
+					r.fail(s.Fn.Name+"/verify-args", c.Prog.Pos(s.Node), "unexpected arity")
+					continue
+				}
+				key, sig := sn.Args[0], sn.Args[1]
+				var x *Term
+				if sig.K == KCall && sig.Name == k.body && len(sig.Args) == 1 && sig.Args[0].K == KCall && sig.Args[0].Name == k.get && len(sig.Args[0].Args) == 1 {
+					x = sig.Args[0].Args[0]
+				}
+				bad := ""
+				switch {
+				case x == nil:
+					bad = "the verified bytes " + sig.S + " are not " + k.body + "(" + k.get + "(payload))"
+				case key.K != KIndex || key.Args[0].S != "ctx.Validators":
+					bad = "the key " + key.S + " is not an entry of the validator list"
+				default:
+					idx := key.Args[1]
+					own := getter("ConsensusPayload", "ValidatorIndex", x, true)
+					okIdx := idx.S == own.S
+					if !okIdx && x.K == KElem && idx.K == KLocal && strings.HasPrefix(idx.Name, "rangekey:") && strings.HasSuffix(idx.Name, ":"+x.Args[0].S) {
+						okIdx = true // the slot index of the ranged payload (stores are keyed by the sender index: P-SLOT)
+					}
+					if !okIdx {
+						bad = "the key is Validators[" + idx.S + "], not the sender's Validators[" + own.S + "]"
+					}
+				}
+				if bad == "" {
+					r.ok(fmt.Sprintf("%s@%s: %s under the sender's key", s.Fn.Name, c.Prog.Pos(s.Node), k.body))
+				} else {
+					r.fail(s.Fn.Name+"/verify-key:"+k.callee, c.Prog.Pos(s.Node), bad+" (a valid (pre)commit of another validator is rejected, or a forged one accepted)")
+				}
+			}
+		}
+	}
+	if n < 4 {
+		r.unresolved(fmt.Sprintf("Verify call sites (found %d, expected >= 4)", n))
 	}
 	return r
 }
